@@ -1,8 +1,8 @@
 #!/bin/bash
-# tools/seeded_all.sh [tier]  — regression of the harness: every confirmed seeded change under seeded/ is applied to a
+# tools/seeded_all.sh [tier] [name-prefix]  — regression of the harness: every confirmed seeded change under seeded/ is applied to a
 # scratch copy of /repo HEAD and the check of the property it targets is run against it (VERIF_REPO); writes seeded/RESULTS.txt.
 # A seeded change that is no longer caught is a regression of the *checks*.  16-way parallel.
-tier="${1:-quick}"
+tier="${1:-quick}"; pat="${2:-}"
 here="$(cd "$(dirname "$0")/.." && pwd)"; cd "$here"
 one() {
   d="$1"; tier="$2"; name=$(basename "$d")
@@ -21,6 +21,7 @@ one() {
   rm -rf "$scratch"
 }
 export -f one; export here
+if [ -n "$pat" ]; then ls -d seeded/${pat}*/ | sed 's#/$##' | xargs -P 6 -I{} bash -c 'one {} '"$tier" | sort; exit 0; fi
 ls -d seeded/*/ | sed 's#/$##' | xargs -P 6 -I{} bash -c 'one {} '"$tier" | sort > seeded/RESULTS.txt
 cat seeded/RESULTS.txt
 grep -c '^CAUGHT' seeded/RESULTS.txt | sed 's/^/caught: /'
